@@ -15,7 +15,7 @@ ASSUMPTIONS = [
     "directories are ids; the current directory at reopen/export time is symbolic (0 = where the file lives, 1 = elsewhere)",
 ]
 BOUNDS = {
-    "quick": "geometries (1,.5)->2 bits/1 hash, (3,.28)->8/2, (3,.2)->11/3, (5,.3)->13/2, (5,.22)->16/2 (whole-byte and partial-byte arrays); every crash index 0..k+1 of add and 0..1 of close; one close/reopen/close cycle; export to a second path",
+    "quick": "geometries (1,.5)->2 bits/1 hash, (3,.28)->8/2, (3,.25)->9/2, (3,.2)->11/3, (4,.25)->12/2, (5,.3)->13/2, (5,.22)->16/2 (bit counts in the residue classes 0,1,2,3,4,5 modulo 8; 6 and 7 in C01); every crash index 0..k+1 of add and 0..1 of close; one close/reopen/close cycle; export to a second path",
     "thorough": "adds (10,.05)->63 bits/4 hashes",
     "outside": "kernel-level durability and real mmap coherence; interruption points between two Python statements that have no file effect (they are equivalent to the preceding effect index); more than one reopen cycle",
 }
@@ -208,7 +208,7 @@ HARNESS = {"c11.add_crash": add_crash, "c11.history": history, "c11.reopen": reo
 
 def jobs(tier):
     js = []
-    geos = [(1, .5), (3, .28), (3, .2), (5, .3), (5, .22)] + ([(10, .05)] if tier == "thorough" else [])
+    geos = [(1, .5), (3, .28), (3, .25), (3, .2), (4, .25), (5, .3), (5, .22)] + ([(10, .05)] if tier == "thorough" else [])
     for est, fpr in geos:
         for op in ("add", "close"):
             js.append({"h": "c11.add_crash", "cfg": {"est": est, "fpr": fpr, "op": op}, "opts": {"cost": est * 5}})
